@@ -413,6 +413,59 @@ func (F *bfn) defFacts(z *zone, site ssa.Instruction) {
 				case name == "encoding/hex.EncodedLen":
 					r := F.linear(x)
 					z.add("0", r.a, r.k)
+				case name == "strings.Count" || name == "bytes.Count":
+					// Count(s, c) >= 1 => Index(s, c) >= 0 and LastIndex(s, c) >= 0;
+					// Count(s, c) >= 2 => LastIndex(s, c) >= Index(s, c) + 1
+					// (c one byte long: occurrences cannot overlap)
+					sep, ok := F.oneByteSep(x.Call.Args[1])
+					if !ok {
+						break
+					}
+					cnt := F.linear(x)
+					z.add("0", cnt.a, cnt.k) // cnt >= 0
+					str := F.rep(x.Call.Args[0])
+					cx := x
+					z.pending = append(z.pending, func() {
+						if !z.le("0", cnt.a, cnt.k-1) { // cnt >= 1
+							return
+						}
+						var first, last []zLin
+						for _, b2 := range F.f.Blocks {
+							for _, in2 := range b2.Instrs {
+								ic, isCall := in2.(*ssa.Call)
+								if !isCall || ic == cx || in2 == site || !instrDominates(in2, site) {
+									continue
+								}
+								n2 := calleeQ(&ic.Call)
+								if !indexFns[n2] || len(ic.Call.Args) != 2 || F.rep(ic.Call.Args[0]) != str {
+									continue
+								}
+								if s2, ok2 := F.oneByteSep(ic.Call.Args[1]); !ok2 || s2 != sep {
+									continue
+								}
+								r := F.linear(ic)
+								z.add("0", r.a, r.k) // found: r >= 0
+								if strings.Contains(n2, ".Last") {
+									last = append(last, r)
+								} else {
+									first = append(first, r)
+								}
+							}
+						}
+						if z.le("0", cnt.a, cnt.k-2) { // cnt >= 2
+							for _, f1 := range first {
+								for _, l1 := range last {
+									z.add(f1.a, l1.a, l1.k-f1.k-1) // first + 1 <= last
+								}
+							}
+						} else {
+							for _, f1 := range first {
+								for _, l1 := range last {
+									z.add(f1.a, l1.a, l1.k-f1.k) // first <= last
+								}
+							}
+						}
+					})
 				}
 			case *ssa.MakeSlice:
 				l := F.linear(x.Len)
@@ -733,6 +786,25 @@ func (F *bfn) condFacts(z *zone, cond ssa.Value, truth bool) {
 			z.add(p.a, s.a, s.k-p.k)
 		}
 	}
+}
+
+// oneByteSep: v is a separator one byte long (a byte constant or a constant
+// string of length 1).
+func (F *bfn) oneByteSep(v ssa.Value) (byte, bool) {
+	v = F.rep(v)
+	if s, ok := constStr(v); ok {
+		if len(s) == 1 {
+			return s[0], true
+		}
+		return 0, false
+	}
+	if k, ok := constInt(v); ok && k >= 0 && k < 256 {
+		return byte(k), true
+	}
+	if b, ok := F.c.sepByte(v); ok {
+		return byte(b), true
+	}
+	return 0, false
 }
 
 func (F *bfn) pathFacts(z *zone, b *ssa.BasicBlock) {
